@@ -371,8 +371,11 @@ def r13_slice_indices(ctx, reach):
         o = None
         for c in body.calls():
             cal = c.callee or ""
-            if not cal.endswith(("::index", "::index_mut")) or len(c.args) < 2 or c.span.get("macros"):
+            if not cal.endswith(("::index", "::index_mut")) or len(c.args) < 2:
                 continue
+            mac = [m_.split("::")[-1].rstrip("!") for m_ in c.span.get("macros", [])]
+            if mac and not all(m_ in ("debug", "trace", "info", "warn", "error", "event", "span", "debug_span", "info_span", "trace_span", "valueset", "fieldset", "callsite", "enabled", "format_args", "const_format_args", "log") for m_ in mac):
+                continue        # arguments of logging macros are the authors' own expressions and are evaluated when the level is enabled
             if " for str" in cal or "String as" in cal or "HashMap" in cal or "BTreeMap" in cal:
                 continue
             o = o or ctx.origins(body)
@@ -383,9 +386,18 @@ def r13_slice_indices(ctx, reach):
             ckey = strip_bb(cont)
             cont_locals = {s_[2] for s_ in subterms(cont) if isinstance(s_, tuple) and s_ and s_[0] == "var" and len(s_) > 2}
 
+            SIZE_LIKE = ("len", "read", "read_buf", "read_exact", "recv_from", "recv", "try_read", "try_recv_from", "peek", "peek_from", "position", "rposition", "find", "rfind", "capacity",
+                         "remaining", "min", "saturating_sub", "write", "poll_read", "filled")
+
             def mentions_container(t, depth=0):
                 for s_ in subterms(t):
                     if isinstance(s_, tuple) and s_ and s_[0] == "call":
+                        last_ = s_[1].split("::")[-1]
+                        # a size / count / position obtained from the container — not a value decoded from its *contents*
+                        if last_ not in SIZE_LIKE and not s_[1].startswith(("client::", "server::", "util::", "session::", "padding::", "protocol::")):
+                            continue
+                        if last_ in ("min", "saturating_sub"):
+                            continue        # looked through: their operands are visited as subterms
                         for a_ in s_[3]:
                             if strip_bb(a_) == ckey:
                                 return True
@@ -483,17 +495,34 @@ def r14_gauges_released_on_every_exit(ctx):
                    "once the limit is reached every new connection is refused, including those of legitimate peers", path=None if ok else render_path(body, p))
     # the boolean form: a flag raised and lowered by the same function ("in progress", "busy") is lowered on every way out
     m = 0
+    # setters: functions that do nothing but store a constant into one atomic field of self (`disable_buffering`)
+    setters = {}
+    for key, body in ctx.P.bodies.items():
+        if len(body.blocks) > 12 or key.startswith("anytls_"):
+            continue
+        aw = [c for c in body.calls() if atomic_method(c) in ("store", "swap")]
+        others = [c for c in body.calls() if atomic_method(c) is None and not (c.norm or "").startswith(("std::", "core::", "tracing", "<")) and "fmt" not in (c.norm or "")]
+        if len(aw) == 1 and not others and len(aw[0].args) > 1:
+            o_ = ctx.origins(body)
+            v_ = const_value(o_.of_operand(aw[0].args[1]))
+            f_ = var_name(o_.of_operand(aw[0].args[0]))
+            if v_ in (0, 1) and f_:
+                setters[key] = (str(f_).split(".")[-1], v_)
     for key, body in ctx.P.scan():
-        if key.startswith(("anytls_",)) or "Drop>::drop" in key:
+        if key.startswith(("anytls_",)) or "Drop>::drop" in key or key in setters:
             continue
         o = None
         sets, resets = {}, {}
         for c in body.calls():
+            if c.callee in setters:
+                f_, v_ = setters[c.callee]
+                (sets if v_ == 1 else resets).setdefault(f_, []).append(c)
+                continue
             am = atomic_method(c)
             if am not in ("store", "swap", "compare_exchange", "compare_exchange_weak", "fetch_or", "fetch_and") or not c.args:
                 continue
             o = o or ctx.origins(body)
-            fld = var_name(o.of_operand(c.args[0])) or fmt(o.of_operand(c.args[0]))[:40]
+            fld = str(var_name(o.of_operand(c.args[0])) or fmt(o.of_operand(c.args[0]))).split(".")[-1][:40]
             val = o.of_operand(c.args[2] if am.startswith("compare_exchange") and len(c.args) > 2 else c.args[1]) if len(c.args) > 1 else None
             v = const_value(val)
             if v == 1:
